@@ -136,8 +136,35 @@ func (pp *piecePool) qualify(text, src string) *piece {
 		}
 		return p2[len(body)].Token == token.SEMICOLON && p2[len(body)+1].Token == token.EOF
 	}
+	// The verdict "lexically closed" is taken from the Lean lexer model (proved total, tied to lexer.go by pins and the C12
+	// correspondence), not from the lexer under test: a lexer whose reading of a statement's last token depends on what
+	// follows it (end of input vs the next statement) must not be able to talk its way out of the pool.
+	closedM := func(suffix string) (bool, bool) {
+		a, ok1 := pumpedFromModel(pp.w.Model().Ask("lex " + hexOrDash([]byte(text))))
+		b, ok2 := pumpedFromModel(pp.w.Model().Ask("lex " + hexOrDash([]byte(text+suffix))))
+		if !ok1 || !ok2 {
+			return false, false
+		}
+		at, bt := strings.Split(strings.TrimSuffix(a, ";"), ";"), strings.Split(strings.TrimSuffix(b, ";"), ";")
+		if len(at) < 2 || len(bt) != len(at)+1 {
+			return false, true
+		}
+		for i := 0; i+1 < len(at); i++ {
+			if at[i] != bt[i] {
+				return false, true
+			}
+		}
+		return strings.HasPrefix(bt[len(at)-1], fmt.Sprint(int(token.SEMICOLON))+",") && strings.HasPrefix(bt[len(at)], fmt.Sprint(int(token.EOF))+","), true
+	}
 	needNL := false
-	if !closed(";") {
+	if c, ok := closedM(";"); ok {
+		if !c {
+			if c2, _ := closedM("\n;"); !c2 {
+				return rej("not-lexically-closed")
+			}
+			needNL = true
+		}
+	} else if !closed(";") {
 		if !closed("\n;") {
 			return rej("not-lexically-closed")
 		}
